@@ -249,8 +249,8 @@ func init() {
 }
 
 var (
-	c18Serialized = map[string]int{"quick": 2400, "thorough": 120000}
-	c18Parallel   = map[string]int{"quick": 400, "thorough": 16000}
+	c18Serialized = map[string]int{"quick": 7000, "thorough": 160000}
+	c18Parallel   = map[string]int{"quick": 900, "thorough": 20000}
 )
 
 func c18Mode() string { return os.Getenv("IKESIM_C18_MODE") }
@@ -353,7 +353,14 @@ func opC18(w *World, s *Step) (string, string) {
 			}
 		}
 	}
-	return fmt.Sprintf("%s:tasks=%d", mode, len(s.Tasks)), mode
+	th := uint64(0)
+	for _, tr := range inter {
+		for _, e := range tr {
+			th = fnvStr(th, e)
+		}
+		th = fnv1a(th, []byte{1})
+	}
+	return fmt.Sprintf("%s:tasks=%d:traces=%016x:sig=%016x", mode, len(s.Tasks), th, w.abs), mode
 }
 
 // ---------------------------------------------------------------------------
